@@ -125,7 +125,8 @@ Proof.
     destruct (match lookup_var (st_vars s) cur f with Some (_, _, vf) => negb (is_empty vf) | None => false end); [apply safe_err|].
     destruct (func_info P f) as [fi|] eqn:Efi; [|apply safe_err].
     destruct (fi_native fi) eqn:En.
-    + destruct (find_native (p_natives P) f) as [nt|] eqn:Enat; [|exfalso; apply (func_info_native P f fi Efi En); exact Enat].
+    + destruct (find_native (p_natives P) f) as [nt|] eqn:Enat; [|apply safe_err].
+      destruct (n_func nt); cbn [negb]; [|apply safe_err].
       destruct (_ <? zlen args); [apply safe_err|].
       apply (np_args f fi Efi); [left; exact En | exact IH].
     + destruct (zlen (fi_params fi) <? zlen args) eqn:El; [apply safe_err|].
